@@ -110,6 +110,46 @@ def feats(n, acc):
         feats(c, acc)
 
 
+def multi(a, progs, stores):
+    """COMPILE2 tie: sequences of 2..3 programs built into ONE data object (harness DUMP2) vs `compileInto` chained"""
+    rnd = random.Random(a.seed * 31 + 7)
+    seqs = []
+    pool = [r for _, r in progs]
+    # every ordered pair of the first small programs, then random sequences
+    small = pool[:min(len(pool), a.pairs)]
+    for x in small:
+        for y in small:
+            seqs.append([x, y])
+    for _ in range(a.multi):
+        seqs.append([rnd.choice(pool) for _ in range(rnd.choice([2, 2, 3]))])
+    dump, comp, info = [], [], {}
+    for k, sq in enumerate(seqs):
+        srcs = [proggen.pp(r) for r in sq]
+        asts = [program_term(r) for r in sq]
+        comp.append(['COMPILE2', str(k)] + asts)
+        info[str(k)] = srcs
+        for st in stores:
+            dump.append(['DUMP2', f'{k}:{st}', st] + [vlib.esc(x) for x in srcs])
+    vlib.log(f'{len(seqs)} sequences')
+    impl = vlib.run_impl(dump, 'compilegen2', per_case_s=5.0)
+    model = vlib.run_sharded(a.drv, comp, 'compilegen2.model', supervised=False)
+    same, diffs = 0, []
+    outcomes = collections.Counter()
+    for k in info:
+        for st in stores:
+            r = impl.get(f'{k}:{st}')
+            outcomes[(r or 'missing').split(' ')[0]] += 1
+            if r == model.get(k):
+                same += 1
+            else:
+                diffs.append((k, st, r, model.get(k)))
+    print(f'sequences={len(seqs)} comparisons={same + len(diffs)} equal={same} different={len(diffs)} impl-outcomes={dict(outcomes)}')
+    diffs.sort(key=lambda d: sum(len(x) for x in info[d[0]]))
+    for k, st, r, m in diffs[:a.show]:
+        print(f'--- [{st}] {info[k]!r}\n    build   {r}\n    compile {m}')
+    return 1 if diffs else 0
+
+
 def main():
     ap = argparse.ArgumentParser()
     ap.add_argument('--seed', type=int, default=1)
@@ -119,6 +159,8 @@ def main():
     ap.add_argument('--drv', default=vlib.DRV)
     ap.add_argument('--store', default='basic')
     ap.add_argument('--show', type=int, default=10)
+    ap.add_argument('--multi', type=int, default=0, help='COMPILE2 tie: this many random sequences of 2..3 programs in one object')
+    ap.add_argument('--pairs', type=int, default=60, help='with --multi: all ordered pairs of the first N small programs')
     ap.add_argument('--absdepth', action='store_true', help='also run the verified depth analysis (suite ABSDEPTH) on the DUMP lines')
     ap.add_argument('--wf', action='store_true', help='also report how many programs satisfy WFProgram')
     a = ap.parse_args()
@@ -131,6 +173,8 @@ def main():
         root = proggen.fix_nodes(g.body(rnd.randint(1, a.depth)))
         progs.append(('random', root))
     stores = ['basic', 'simple'] if a.store == 'both' else [a.store]
+    if a.multi:
+        return multi(a, progs, stores)
     fc = collections.Counter()
     dump, comp, info = [], [], {}
     for k, (stream, root) in enumerate(progs):
